@@ -180,6 +180,10 @@ FastRational divexact(FastRational const & n, FastRational const & d) {
         word num = n.num;
         word den = d.num;
         word quo;
+        if (num == INT_MIN and den == -1) {
+            // the quotient 2^31 does not fit a word (and the division traps)
+            return FastRational(uword(1) << 31);
+        }
         if (den != 0){
             quo = num / den;
             return quo;
